@@ -95,6 +95,65 @@ Theorem C16_clear_empties : forall d d' es r, l_clear gen_sig_tables d = LOk d' 
 Proof. exact (clear_spec gen_sig_tables). Qed.
 Print Assumptions C16_clear_empties.
 
+(* every one of the 13 mutators computes the corresponding Coq list function (None = raises, nothing changes):
+   append d++[v]; insert at the clamped index; setitem / delitem at the normalised index; slice assignment
+   (step 1: splice, extended: position-wise, sizes must agree) and slice deletion by slice.indices;
+   pop() = removelast returning last; pop(i); remove = first occurrence; extend / extend(self) / += = ++;
+   reverse = rev; clear = [] *)
+Theorem C16_list_op_spec : forall tb d o,
+  match list_op tb d o with
+  | LOk d' _ r => list_op_result d o = Some d' /\ r = list_op_ret d o
+  | LErr _ => list_op_result d o = None
+  end.
+Proof. exact list_op_spec. Qed.
+Print Assumptions C16_list_op_spec.
+
+Theorem C16_reverse_reverses : forall tb d d' es r, l_reverse tb d = LOk d' es r -> d' = rev d.
+Proof. exact reverse_spec. Qed.
+Print Assumptions C16_reverse_reverses.
+
+(* THE replay property as one theorem.  For every case (any number of instances, any mix of Observable /
+   ObservableList attributes, any initial values) and every history `ops` in which nobody unsubscribes, clears
+   or kills the listener h or subscribes it a second time: the listener subscribes with observe(All(), All(), h)
+   on every instance from the initial state and applies every signal it is called with to its own copy (indexed
+   by signal.owner and signal.name; the Python operation chosen by signal.type, using signal.index / signal.new);
+   after EVERY operation (every prefix `firstn n ops`) its copy is exactly the real value of every observable of
+   every instance - scalars and lists. *)
+Theorem C16_listener_replay : forall (h : Z) (c : case) (ops : list op) (n : nat),
+  forallb (undisturbed h) ops = true ->
+  let hist := subscribe_all h (length (c_insts c)) ++ firstn n ops in
+  listen gen_sig_tables h (c_insts c) (run_deliveries gen_sig_tables (init_state c) hist) =
+  map i_slots (st_insts (run_state gen_sig_tables (init_state c) hist)).
+Proof. exact (listener_replay gen_sig_tables C16_source_tables_ok). Qed.
+Print Assumptions C16_listener_replay.
+
+(* the class hierarchy.  T1: descriptor_generator of the CURRENT source walks type(obj).__mro__ most derived
+   class first and skips names already seen ... *)
+Theorem C16_source_shadowing : gen_dg_shadowing = true.
+Proof. reflexivity. Qed.
+Print Assumptions C16_source_shadowing.
+
+(* ... hence observables[name] is the most derived definition of name (what attribute lookup finds), present
+   exactly when that definition is an Observable / ObservableList - whatever base classes bind the name to,
+   and not at all when a subclass shadows an inherited observable with a plain attribute *)
+Theorem C16_observables_most_derived : forall mro n,
+  dict_get n (observables_of gen_dg_shadowing mro) =
+  match most_derived mro n with Some e => if is_obs e then Some e else None | None => None end.
+Proof. rewrite C16_source_shadowing. exact observables_most_derived. Qed.
+Print Assumptions C16_observables_most_derived.
+
+(* ... and the signal types run_case uses for attribute n of every instance of a case are those of the most
+   derived definition of n in the case's hierarchy *)
+Theorem C16_effective_types : forall (c : case) vals n s e,
+  In vals (c_vals c) -> 0 <= n -> nth_error vals (Z.to_nat n) = Some s ->
+  most_derived (c_mro c) n = Some e -> is_obs e = true ->
+  types_of gen_sig_tables (build_slots (observables_of gen_dg_shadowing (c_mro c)) 0 vals) n =
+  types_of_entry gen_sig_tables e.
+Proof.
+  intros c vals n s e _. exact (effective_types gen_sig_tables gen_dg_shadowing (c_mro c) vals n s e C16_source_shadowing).
+Qed.
+Print Assumptions C16_effective_types.
+
 (* after unobserve(nm, ty, h) - from any state that agrees with a ledger, i.e. after any history - h receives
    no signal of any (name, type) the call names, as long as h is not subscribed to instance i again *)
 Theorem C16_unobserve_silences : forall slots_of st L,
@@ -165,7 +224,7 @@ Print Assumptions C16_type_order_irrelevant.
 
 (* ------------------------------------------------------------------ non-vacuity *)
 Definition ex_case : case :=
-  {| c_insts := [[SObs None (Some 3); SList (Some [1; 2; 3])]];
+  {| c_mro := [[(0, EObs (Some 3))]; [(1, EList)]]; c_vals := [[SObs None None; SList (Some [1; 2; 3])]];
      c_ops := [Observe 0 TAll SAll 1; Observe 0 (TName 1) (SType 5) 2; Observe 0 TAll (SType 5) 2;
                ListOp 0 1 (LAppend 7); Assign 0 0 4; Unobserve 0 TAll SAll 1; ListOp 0 1 LReverse;
                Kill [2]; ListOp 0 1 LClear] |}.
@@ -204,3 +263,35 @@ Example C18_example_raises :
   (exists e, snd (step gen_sig_tables st (ListOp 0 1 (LSetSlice None None (Some 2) [1]))) = (Raised e, VNone, [])) /\
   (exists e, snd (step gen_sig_tables st (Unobserve 0 (TName 9) SAll 1)) = (Raised e, VNone, [])).
 Proof. vm_compute. repeat split; eexists; reflexivity. Qed.
+(* list_op_result is not vacuous: concrete values, incl. clamped insert, negative-step slice, pop default *)
+Example C16_example_list_spec :
+  list_op_result [1; 2; 3] (LInsert (-9) 7) = Some [7; 1; 2; 3] /\
+  list_op_result [1; 2; 3] (LInsert 9 7) = Some [1; 2; 3; 7] /\
+  list_op_result [0; 1; 2; 3; 4] (LDelSlice (Some 3) None (Some (-2))) = Some [0; 2; 4] /\
+  list_op_result [0; 1; 2; 3; 4] (LSetSlice (Some 1) (Some 3) None [9]) = Some [0; 9; 3; 4] /\
+  list_op_result [0; 1; 2] (LSetSlice None None (Some 2) [9]) = None /\
+  list_op_result [5; 6; 5] (LRemove 5) = Some [6; 5] /\ list_op_result [5; 6] (LRemove 7) = None /\
+  list_op_result [5; 6] (LPop None) = Some [5] /\ list_op_ret [5; 6] (LPop None) = VInt 6 /\
+  list_op_result [] (LPop None) = None /\ list_op_result [1; 2; 3] LReverse = Some [3; 2; 1].
+Proof. vm_compute. repeat split; reflexivity. Qed.
+(* listener replay is not vacuous: two instances, other handlers come and go, 9 is left alone; its copy after the
+   history holds the real values, which did change *)
+Example C16_example_listener :
+  let c := {| c_mro := [[(1, EList)]; [(0, EObs (Some 3)); (1, EObs None)]];
+              c_vals := [[SObs None None; SList (Some [1; 2; 3])]; [SObs (Some 5) None; SList None]]; c_ops := [] |} in
+  let ops := [Observe 0 TAll (SType 1) 4; ListOp 0 1 (LSetSlice None None (Some (-1)) [7; 8; 9]); Assign 0 0 6;
+              AssignList 1 1 [4; 4]; ListOp 1 1 (LIAdd [5]); Kill [4]; ListOp 0 1 LReverse; ListOp 1 1 (LPop None);
+              Unobserve 0 TAll SAll 4; ListOp 0 1 LClear; Assign 1 0 8] in
+  forallb (undisturbed 9) ops = true /\
+  listen gen_sig_tables 9 (c_insts c)
+         (run_deliveries gen_sig_tables (init_state c) (subscribe_all 9 2 ++ ops)) =
+  [[SObs (Some 6) (Some 3); SList (Some [])]; [SObs (Some 8) (Some 3); SList (Some [4; 4])]].
+Proof. vm_compute. split; reflexivity. Qed.
+(* hierarchy: Sub overrides the inherited Observable 0 with an ObservableList, shadows the inherited ObservableList 7
+   with a plain attribute, inherits 2; without the shadowing walk (the unrepaired code) the base class's kind wins *)
+Example C16_example_hierarchy :
+  let mro := [[(0, EList); (7, EPlain)]; [(0, EObs None); (7, EList); (2, EObs (Some 1))]] in
+  most_derived mro 0 = Some EList /\ most_derived mro 7 = Some EPlain /\
+  observables_of true mro = [(0, EList); (2, EObs (Some 1))] /\
+  observables_of false mro = [(0, EObs None); (7, EList); (2, EObs (Some 1))].
+Proof. vm_compute. repeat split; reflexivity. Qed.
